@@ -21,7 +21,7 @@ RULE = ("spec table over spatialmath.base.__all__ and the class constructors/met
         "raise; (c) separate-scalar and packed-vector call forms are equal; (d) f(a,'deg') = f(a*pi/180) to 1e-9 for accepted "
         "and returned angles; (e) unknown order names and unknown input units raise. Non-trivial: form not in {list, 1-D array}, "
         "or wrong length, or deg, or non-default order.")
-RULE = RULE + probes.RULE_TEXT + (probes.AUG_TEXT if PROPERTY_ID in probes.AUG_PROPS else "") + probes.VARIANT_TEXT + probes.OWN_TEXT
+RULE = RULE + probes.RULE_TEXT + (probes.AUG_TEXT if PROPERTY_ID in probes.AUG_PROPS else "") + probes.VARIANT_TEXT + probes.OWN_TEXT + probes.EXTRA_RULES.get(PROPERTY_ID, "")
 ASSUMPTIONS = ["functions where a 2-D array is a documented point set (e2h, h2e, homtrans, getvector without dim) are only given list/tuple/1-D",
                "functions documented to take ndarray(n) only (isunitvec, iszerovec, Ab2M) and matrix-only / plotting / printing functions are in the exclusion list, counted in evidence",
                "results are compared by value and shape (array_equal); containers mirrored by the converters (getvector(out='sequence'), getunit) are compared by value"]
